@@ -399,5 +399,50 @@ def r5_no_shared_mutation(chk: Check) -> None:
         chk.undecided("C13.R5", "<discovery>", f"functions={n}", "no function with container-typed parameters found")
 
 
+def r6_test_object_per_operation(chk: Check) -> None:
+    chk.rule("C13.R6", "OWNERSHIP(per-operation state on the Hypothesis test object): setup_hypothesis_database_key stores the operation's digest on `test.hypothesis.inner_test`, and in deterministic mode Hypothesis derives the test's PRNG from that digest when the test STARTS; so the object handed to `hypothesis.given(...)(f)` must be created per create_base_test call (a function defined in its body) - if it is the caller's function (one module-level `test_func` for all operations), worker threads overwrite each other's digest and an operation gets another operation's random stream: what is tested depends on the number of workers", floor=2)
+    P = chk.project
+    fn = P.func(f"{BUILDER}:create_base_test")
+    stores = []
+    for f in P.all_functions():
+        if isinstance(f.node, ast.Lambda):
+            continue
+        for a in walk_body(f.node):
+            if isinstance(a, ast.Assign):
+                for t in a.targets:
+                    if isinstance(t, ast.Attribute) and ".hypothesis.inner_test" in unparse(t.value) + ".":
+                        stores.append((f, a))
+    for f, a in stores:
+        chk.ok("C13.R6", f, f"per-operation store `{unparse(a.targets[0], 80)}`", "needs a per-operation inner test", f.loc(a))
+    locals_defs = {n.name for n in fn.node.body if isinstance(n, (ast.FunctionDef, ast.AsyncFunctionDef))}
+    # include defs nested in if-blocks etc.
+    locals_defs |= {n.name for n in walk_body(fn.node) if isinstance(n, (ast.FunctionDef, ast.AsyncFunctionDef)) and n is not fn.node}
+    params = set(params_of(fn.node))
+    sites = []
+    for c in body_calls(fn):
+        if isinstance(c.func, ast.Call) and unparse(c.func.func).endswith("given") and len(c.args) == 1:
+            sites.append((c, c.args[0]))
+    for d in walk_body(fn.node):
+        if isinstance(d, (ast.FunctionDef, ast.AsyncFunctionDef)) and d is not fn.node:
+            for deco in d.decorator_list:
+                if isinstance(deco, ast.Call) and unparse(deco.func).endswith("given"):
+                    sites.append((deco, ast.Name(id=d.name, ctx=ast.Load())))
+    construct = "create_base_test: the function given to hypothesis.given is created per call"
+    if not sites:
+        chk.undecided("C13.R6", fn, construct, "`hypothesis.given(...)(f)` not found", fn.loc())
+        return
+    for c, target in sites:
+        if not stores:
+            chk.ok("C13.R6", fn, construct, "no per-operation state is kept on the test object", fn.loc(c))
+        elif isinstance(target, ast.Lambda) or (isinstance(target, ast.Name) and target.id in locals_defs):
+            chk.ok("C13.R6", fn, construct, f"`{unparse(target)}` is defined in the body", fn.loc(c))
+        elif isinstance(target, ast.Name) and target.id in params:
+            chk.violation("C13.R6", fn, construct,
+                          f"`{target.id}` is the caller's function object, shared by every operation (the unit phase passes the same module-level test function from all worker threads): the digest stored on its `.hypothesis.inner_test` by one worker is overwritten by another before the test starts, so in deterministic mode an operation runs with another operation's PRNG - the requests depend on the worker count",
+                          fn.loc(c))
+        else:
+            chk.undecided("C13.R6", fn, construct, f"`{unparse(target, 60)}`: origin not recognised", fn.loc(c))
+
+
 def rules(tier: str) -> list:  # type: ignore[type-arg]
-    return [r1_entries, r2_entropy, r3_unordered, r4_seed_flow, r5_no_shared_mutation]
+    return [r1_entries, r2_entropy, r3_unordered, r4_seed_flow, r5_no_shared_mutation, r6_test_object_per_operation]
